@@ -32,28 +32,28 @@ func buildFamily(family, tier string, seed int64) []*Scenario {
 	}
 	switch family {
 	case "c01":
-		rep(n(2, 8), func(i int) []*Scenario {
-			return g.famMatrix("a"+string(rune('a'+i)), []string{"gt", "gte", "lt", "lte"}, numeric, 12, true)
+		rep(n(2, 90), func(i int) []*Scenario {
+			return g.famMatrix(fmt.Sprintf("a%03d", i), []string{"gt", "gte", "lt", "lte"}, numeric, 12, true)
 		})
 		// the extremes of every type and the bound 0, systematically (one struct per rule x type each)
 		for i, b := range []string{"lo", "hi", "zero"} {
 			g.bound = b
-			out = append(out, g.famMatrix("ax"+string(rune('a'+i)), []string{"gt", "gte", "lt", "lte"}, numeric, 14, false)...)
+			out = append(out, g.famMatrix(fmt.Sprintf("ax%d", i), []string{"gt", "gte", "lt", "lte"}, numeric, 14, false)...)
 		}
 		g.bound = ""
 	case "c02":
 		out = append(out, g.corpusC07("b")...) // path-collision and deep-nesting shapes with `required`
-		rep(n(1, 3), func(i int) []*Scenario { return g.famMatrix("b"+string(rune('a'+i)), []string{"required"}, allTypes, 12, true) })
+		rep(n(1, 40), func(i int) []*Scenario { return g.famMatrix(fmt.Sprintf("b%03d", i), []string{"required"}, allTypes, 12, true) })
 	case "c03":
-		rep(n(3, 10), func(i int) []*Scenario {
-			return g.famMatrix("c"+string(rune('a'+i)), []string{"minlength", "maxlength", "length"}, []*TypeX{stringT}, 6, true)
+		rep(n(3, 120), func(i int) []*Scenario {
+			return g.famMatrix(fmt.Sprintf("c%03d", i), []string{"minlength", "maxlength", "length"}, []*TypeX{stringT}, 6, true)
 		})
-		out = append(out, g.famCombo("cz", n(12, 60), []string{"minlength", "maxlength", "length"})...)
+		out = append(out, g.famCombo("cz", n(12, 600), []string{"minlength", "maxlength", "length"})...)
 	case "c04":
-		rep(n(2, 6), func(i int) []*Scenario { return g.famMatrix("d"+string(rune('a'+i)), []string{"minitems", "maxitems"}, collTypes, 12, true) })
+		rep(n(2, 72), func(i int) []*Scenario { return g.famMatrix(fmt.Sprintf("d%03d", i), []string{"minitems", "maxitems"}, collTypes, 12, true) })
 	case "c05":
 		ts := append([]*TypeX{stringT}, numeric...)
-		rep(n(2, 8), func(i int) []*Scenario { return g.famMatrix("e"+string(rune('a'+i)), []string{"enum"}, ts, 12, true) })
+		rep(n(2, 90), func(i int) []*Scenario { return g.famMatrix(fmt.Sprintf("e%03d", i), []string{"enum"}, ts, 12, true) })
 		// every string item pool once (blanks inside items, duplicates, non-ASCII …)
 		for i := range enumStrPools {
 			g.pool = i + 1
@@ -61,10 +61,10 @@ func buildFamily(family, tier string, seed int64) []*Scenario {
 		}
 		g.pool = 0
 	case "c06":
-		rep(n(2, 6), func(i int) []*Scenario {
-			return g.famMatrix("f"+string(rune('a'+i)), []string{"email", "url", "uuid", "alpha", "numeric", "ipv4", "ipv6"}, []*TypeX{stringT}, 7, true)
+		rep(n(2, 72), func(i int) []*Scenario {
+			return g.famMatrix(fmt.Sprintf("f%03d", i), []string{"email", "url", "uuid", "alpha", "numeric", "ipv4", "ipv6"}, []*TypeX{stringT}, 7, true)
 		})
-		out = append(out, g.famCombo("fz", n(12, 60), []string{"email", "url", "uuid", "alpha", "numeric", "ipv4", "ipv6"})...)
+		out = append(out, g.famCombo("fz", n(12, 600), []string{"email", "url", "uuid", "alpha", "numeric", "ipv4", "ipv6"})...)
 	case "c09":
 		out = g.famShapes("s", n(25, 100), n(6, 25))
 	case "c08":
